@@ -1,0 +1,8 @@
+//go:build !verif
+// +build !verif
+
+package sarama
+
+// verifPoint marks a point the verification harness (/verif) can observe or steer when the
+// package is built with -tags verif. Without the tag it is an empty, inlinable function.
+func verifPoint(kind string, args ...interface{}) {}
